@@ -453,6 +453,17 @@ def _ren(v, ren):
     return ren.get(v, v) if isinstance(v, (str, int)) else v
 
 
+def _handed_on_as_value(ctx: Ctx, mgr: ClassInfo, u: FuncUnit) -> bool:
+    """`self.<method>` appears in the manager class somewhere else than as the function of a call."""
+    for m in mgr.methods.values():
+        called = {id(c.func) for c in ast.walk(m.node) if isinstance(c, ast.Call)}
+        for n in ast.walk(m.node):
+            if isinstance(n, ast.Attribute) and isinstance(n.value, ast.Name) and n.value.id == 'self' and id(n) not in called:
+                if ctx.p.lookup_method(mgr, n.attr, mgr) is u:
+                    return True
+    return False
+
+
 def _manager_reads(ctx: Ctx) -> Tuple[Set[Any], Set[Any]]:
     """The attribute keys (by value) the run manager reads off graph nodes / edges on the run path."""
     from ..absint import Interp as _I, Oracle as _O
@@ -472,7 +483,91 @@ def _manager_reads(ctx: Ctx) -> Tuple[Set[Any], Set[Any]]:
         if isinstance(t, tuple) and t and t[0] in ('idx', 'item', 'elem') and isinstance(t[1], tuple) and t[1] and t[1][0] == 'attr':
             return {'nodes': 'n', 'edges': 'e'}.get(t[1][2])
         return None
+    def _strip(e: ast.AST, unit: FuncUnit, depth: int = 0) -> ast.AST:
+        while isinstance(e, ast.Call) and isinstance(e.func, ast.Name) and e.func.id in ('list', 'tuple', 'sorted', 'reversed', 'iter') \
+                and e.args:
+            e = e.args[0]
+        if isinstance(e, ast.Name) and depth < 3:
+            vals = [a.value for a in ast.walk(unit.node) if isinstance(a, ast.Assign) and len(a.targets) == 1
+                    and isinstance(a.targets[0], ast.Name) and a.targets[0].id == e.id]
+            vals += [a.value for a in ast.walk(unit.node) if isinstance(a, ast.AnnAssign) and a.value is not None
+                     and isinstance(a.target, ast.Name) and a.target.id == e.id]
+            if len(vals) == 1:
+                return _strip(vals[0], unit, depth + 1)
+        return e
+
+    def _data_true(c: ast.Call) -> bool:
+        return any(k.arg == 'data' and isinstance(k.value, ast.Constant) and k.value.value is True for k in c.keywords)
+
+    def local_kind(name: str, unit: FuncUnit) -> Optional[str]:
+        # a loop / comprehension variable bound to the attribute dictionary of the (u, v, data) / (n, data) tuples networkx
+        # yields: in_edges(.., data=True), out_edges(.., data=True), edges(data=True), nodes(data=True), <table>.items()
+        for n in ast.walk(unit.node):
+            pairs = []
+            if isinstance(n, ast.comprehension):
+                pairs.append((n.target, n.iter))
+            elif isinstance(n, (ast.For, ast.AsyncFor)):
+                pairs.append((n.target, n.iter))
+            for tgt, it in pairs:
+                if not isinstance(tgt, ast.Tuple):
+                    continue
+                idx = [i for i, x in enumerate(tgt.elts) if isinstance(x, ast.Name) and x.id == name]
+                if not idx:
+                    continue
+                src = _strip(it, unit)
+                if isinstance(src, (ast.ListComp, ast.GeneratorExp, ast.SetComp)) and isinstance(src.elt, ast.Tuple) \
+                        and len(src.elt.elts) == len(tgt.elts):
+                    # a table of tuples built by the function itself: [(u, <graph>.edges[(u, v)]) for u in ...]
+                    from ..cfg import Inst as _Inst
+                    k = _kind_of_table(sym.term(ctx.p, src.elt.elts[idx[0]], _Inst(unit, None, None, {})))
+                    if k:
+                        return k
+                    continue
+                if not (isinstance(src, ast.Call) and isinstance(src.func, ast.Attribute)):
+                    continue
+                attr, n_el = src.func.attr, len(tgt.elts)
+                if attr in ('in_edges', 'out_edges', 'edges') and _data_true(src) and n_el == 3 and idx[0] == 2:
+                    return 'e'
+                if attr == 'nodes' and _data_true(src) and n_el == 2 and idx[0] == 1:
+                    return 'n'
+                if attr in ('items', 'data') and isinstance(src.func.value, ast.Attribute) and n_el >= 2 and idx[0] == n_el - 1:
+                    k = {'nodes': 'n', 'edges': 'e'}.get(src.func.value.attr)
+                    if k:
+                        return k
+        return None
+
+    _kind_of_table = kind_of
+
+    def kind_of(t, _base=_kind_of_table):           # noqa: F811
+        k = _base(t)
+        if k is None and isinstance(t, tuple) and len(t) == 3 and t[0] == 'item' and isinstance(t[1], tuple) and t[1][:1] == ('elem',) \
+                and isinstance(t[1][1], tuple) and t[1][1][:1] == ('call',) and isinstance(t[1][1][1], str):
+            # element i of the tuples a networkx view yields: (u, v, data) of in_edges / out_edges / edges(data=True), (n, data) of nodes
+            call = t[1][1]
+            name = call[1].split('.')[-1]
+            data = any(kw == ('data', ('const', True)) for kw in (call[3] if len(call) > 3 else ()))
+            if name in ('in_edges', 'out_edges', 'edges') and data and t[2] == (2,):
+                return 'e'
+            if name == 'nodes' and data and t[2] == (1,):
+                return 'n'
+        if k is None and isinstance(t, tuple) and len(t) == 3 and t[0] == 'local':
+            for u in ctx.p.functions.values():
+                if u.qualname == t[1]:
+                    k = local_kind(t[2], u)
+                    if k:
+                        break
+        return k
     graphs = dict(ctx.run_graphs())
+    # functions the manager only hands on as values (the filters given to networkx views) are never called on a run graph
+    mgr = ctx.manager_class()
+    for u in ctx.p.functions.values():
+        top = u
+        while top.parent is not None:
+            top = top.parent
+        if u.parent is not None and top.cls is mgr and not isinstance(u.node, ast.Lambda):
+            graphs[u.fid] = ctx.graph(u.fid, depth=1)
+        elif u.parent is None and u.cls is mgr and u.fid not in graphs and _handed_on_as_value(ctx, mgr, u):
+            graphs[u.fid] = ctx.graph(u.fid, depth=1)          # a method given to a view as its filter (`filter_node=self._keeps`)
     for fid, g in graphs.items():
         for ev in g.evs:
             if ev.kind == 'call' and isinstance(ev.node, ast.Call) and isinstance(ev.node.func, ast.Attribute) \
